@@ -17,6 +17,7 @@ EXPRESSIONS = {
     "outer":      ("mn", ["m", "n"]),
     "three":      ("m", ["mk", "k", "k"]),
     "copy":       ("m", ["m"]),
+    "elementwise2": ("mk", ["mk", "mk"]),
 }
 
 
@@ -46,7 +47,8 @@ def make_tensor(name, idxs, content, sizes):
     root = t.getRoot()
     for pt, val in sorted(content.items()):
         ref = root.getPayloadRef(*pt)
-        ref <<= val
+        if len(pt) == len(ids):
+            ref <<= val           # a shorter point only reserves an (empty) sub-fiber
     return t
 
 
